@@ -282,7 +282,12 @@ WITNESSES = ["2:", "2::30", "2:.5", "2021 2:", "20210102 3:", "2021-01-01/P1D", 
              "235959", "012345", "T12:27:38", "2021-W00-1", "2021-W01-0", "P1.25D", "PT1.9999999S", "P1.1W", "P0D1Y", "now", "", "P", "PT", "2021-01-01\n", "P1D\n",
              "٢٠٢١-01-01", "2021/01/0١", "99999999999999999999", "1" * 30, "10:99:99999999999999999999", "Jan 5 2021", "5 Jan", "tomorrow",
              "2021-01-02T03:04:05", "2021-01-02 03:04:05", "2021-01-02T03:04:05.123456789+05:45", "2021-01-2", "2021-0102", "202101-02", "12", "2021-W011", "2021W01-1",
-             "79760906\n", "2021-01-01T00:00:00.4294967296", "12:00:00.99999999999"]
+             "79760906\n", "2021-01-01T00:00:00.4294967296", "12:00:00.99999999999",
+             # the edges of the calendar: week and ordinal dates whose calendar day lies outside years 1..9999 (9999-W52-6/7 are 10000-01-01/02,
+             # 0001-W01-1 is 0001-01-01 but 1000-W.. below the pure-Python %Y range), last/first representable days in every form, with and without time
+             "9999-W52-6", "9999-W52-7", "9999W526", "9999W527", "9999-W52-7T10:00:00", "9999-W52-6/P1D", "9999-W52-5", "9999-W52-5T23:59:59.999999",
+             "9999-365", "9999-366", "9999365", "9999-12-31T23:59:59.999999+00:00", "9999-12-31T23:59:59-23:59", "0001-W01-1", "0001-001", "0001-01-01T00:00:00+23:59",
+             "1000-W01-1", "1001-W01-1", "9998-W52-7", "0000-W01-1", "0000-001", "9999-W53-1", "9999-W00-1"]
 
 
 def search_cases(seed):
